@@ -14,9 +14,12 @@ import (
 var (
 	c05Words    = []string{"user", "name", "port", "max", "conn", "time", "out", "id", "host", "key", "log", "level", "a", "b"}
 	c05IntKinds = []string{"int", "int8", "int16", "int32", "int64", "uint", "uint8", "uint16", "uint32", "uint64"}
-	c05Alphabet = []string{"a", "b", "Z", "0", "7", " ", "_", "-", ".", ",", ":", "#", "{", "[", "\"", "'", "\\", "/", "<", "&", "%", "é", "中", "😀", "\n", "\t", "\u0001", "=", "|", "~", "*", "!", "?", "@", "y", "n"}
-	c05MapKeys  = []string{"k", "k2", "x", "y", "some", "zz"}
-	c05Durs     = []string{"0s", "1ns", "1h", "1h30m", "2.5s", "-3m", "100ms", "72h3m0.5s", "1us"}
+	c05Alphabet = []string{"a", "b", "Z", "0", "7", " ", "_", "-", ".", ",", ":", "#", "{", "[", "\"", "'", "\\", "/", "<", "&", "%", "é", "中", "😀", "\n", "\t", "\u0001", "=", "|", "~", "*", "!", "?", "@", "y", "n",
+		"%s", "%d", "%!", "$", "${HOME}", "$(x)", "`", "^", ")", "]", "}", ";", "\r", "\u007f", "\u00a0", "\ufeff"}
+	c05MapKeys = []string{"k", "k2", "x", "y", "some", "zz"}
+	// keys of map-typed fields are user data (not for the conf rule, which rewrites them)
+	c05MapKeysWide = []string{"k", "k2", "x", "", " ", "a.b", "%s", "ключ", "line\nbreak", "UPPER", "snake_key", "kebab-key", "😀", "k\u0001", "a*b", "$x"}
+	c05Durs        = []string{"0s", "1ns", "1h", "1h30m", "2.5s", "-3m", "100ms", "72h3m0.5s", "1us"}
 )
 
 // c05GenCfg tunes the shape generator for the rule that uses it.
@@ -47,13 +50,36 @@ func c05W(rt *rapid.T, label string, names []string, weights []int) string {
 	return names[len(names)-1]
 }
 
+// c05Rare: true with probability 1/n, flat (rapid's integer generators favour small
+// values and the bounds, so the draw is hashed).
+func c05Rare(rt *rapid.T, label string, n uint64) bool {
+	x := rapid.Uint64().Draw(rt, label)
+	return (x*0x9E3779B97F4A7C15>>33)%n == 1
+}
+
+var (
+	c05BigCounts  = [][]int{{255, 256, 257, 1000, 1024, 4096, 4097}, {10000, 32768, 65535, 65536, 65537}, {100000}}
+	c05BigLengths = [][]int{{100, 255, 256, 257, 1023, 4095, 4096, 4097}, {32767, 32768, 65535, 65536, 65537}, {1 << 20, 1<<20 + 1}}
+)
+
+// c05BigSize: mostly the cheap sizes, the expensive ones rarely.
+func c05BigSize(rt *rapid.T, tiers [][]int) int {
+	switch x := rapid.IntRange(0, 39).Draw(rt, "bigtier"); {
+	case x == 20:
+		return c05Pick(rt, "bigsize", tiers[2])
+	case x >= 21 && x <= 23:
+		return c05Pick(rt, "bigsize", tiers[1])
+	}
+	return c05Pick(rt, "bigsize", tiers[0])
+}
+
 func c05GenScalarKind(rt *rapid.T, allowDur bool) string {
-	k := c05W(rt, "kind", []string{"bool", "intk", "float32", "float64", "string", "dur"}, []int{10, 45, 8, 10, 18, 7})
+	k := c05W(rt, "kind", []string{"bool", "intk", "float32", "float64", "string", "dur", "text"}, []int{10, 45, 8, 10, 18, 7, 3})
 	switch k {
 	case "intk":
 		return c05Pick(rt, "intkind", c05IntKinds)
-	case "dur":
-		if !allowDur {
+	case "dur", "text":
+		if !allowDur { // element types: neither Duration nor the TextUnmarshaler type
 			return "string"
 		}
 	}
@@ -93,11 +119,49 @@ func c05GenElem(rt *rapid.T, cfg *c05GenCfg, depth, cdepth int) *c05Typ {
 
 func c05GenFields(rt *rapid.T, cfg *c05GenCfg, depth, maxN int, prefix string) []c05Fld {
 	n := rapid.IntRange(1, maxN).Draw(rt, "nfields")
+	wide := depth == 1 && prefix == "" && maxN >= 6 && c05Rare(rt, "widestruct", 80)
+	if wide {
+		n = c05Pick(rt, "wide", []int{17, 33, 64, 65})
+	}
 	fs := make([]c05Fld, n)
 	for i := range fs {
+		if wide && i >= 4 {
+			// many plain scalar fields
+			sc := *cfg
+			sc.maxDepth = 0
+			f := c05Fld{W: []string{c05Pick(rt, "word", c05Words)}, T: c05Typ{K: c05GenScalarKind(rt, true)}, Tag: cfg.tag, KS: c05Pick(rt, "keystyle", cfg.keyStyles)}
+			c05GenOptionsBase(rt, &f)
+			fs[i] = f
+			continue
+		}
 		fs[i] = c05GenField(rt, cfg, depth, prefix, i)
 	}
+	if depth == 1 && prefix == "" && maxN >= 6 && c05Rare(rt, "deepchain", 80) {
+		// deep nesting: a chain of 6..14 nested structs, scalars at every level
+		d := rapid.IntRange(6, 10).Draw(rt, "chaindepth") // (deeper is only slower: the valuer chain is rebuilt per field, cost grows steeply with depth)
+		fs = append(fs, c05Fld{W: []string{"deep"}, T: c05GenChain(rt, cfg, d), Tag: cfg.tag, KS: "camel"})
+	}
 	return fs
+}
+
+func c05GenChain(rt *rapid.T, cfg *c05GenCfg, d int) c05Typ {
+	leaf := c05Fld{W: []string{"leaf"}, T: c05Typ{K: c05GenScalarKind(rt, true)}, Tag: cfg.tag, KS: "camel"}
+	c05GenOptionsBase(rt, &leaf)
+	t := c05Typ{K: "struct", F: []c05Fld{leaf}}
+	for i := 0; i < d; i++ {
+		side := c05Fld{W: []string{"side"}, T: c05Typ{K: c05GenScalarKind(rt, false)}, Tag: cfg.tag, KS: "camel"}
+		c05GenOptionsBase(rt, &side)
+		if rapid.IntRange(0, 3).Draw(rt, "chaininh") == 0 {
+			side.Inh = true
+			side.W = []string{"inh", "side", strconv.Itoa(i)}
+		}
+		next := c05Fld{W: []string{"next"}, T: t, Tag: cfg.tag, KS: "camel"}
+		if rapid.IntRange(0, 4).Draw(rt, "chainptr") == 0 {
+			next.T.P = true
+		}
+		t = c05Typ{K: "struct", F: []c05Fld{side, next}}
+	}
+	return t
 }
 
 func c05GenField(rt *rapid.T, cfg *c05GenCfg, depth int, prefix string, idx int) c05Fld {
@@ -225,6 +289,9 @@ func c05GenOptions(rt *rapid.T, f *c05Fld) {
 	if !c05IsScalar(f.T.K) {
 		return
 	}
+	if f.T.K == "text" {
+		return
+	}
 	switch c05W(rt, "source", []string{"doc", "env", "inherit"}, []int{78, 14, 8}) {
 	case "inherit":
 		if !f.T.P || rapid.Bool().Draw(rt, "inhptr") {
@@ -272,6 +339,9 @@ func c05GenOptionsBase(rt *rapid.T, f *c05Fld) {
 	presence := c05W(rt, "presence", []string{"required", "optional", "default", "both"}, []int{40, 28, 28, 4})
 	if presence == "optional" || presence == "both" {
 		f.Opt = true
+	}
+	if k == "text" {
+		return // no default=/options=/range= for the callback type
 	}
 	wantDef := presence == "default" || presence == "both"
 	if !c05IsScalar(k) {
@@ -447,9 +517,13 @@ func c05InsideRange(rt *rapid.T, rg *c05Rng, lo, hi int, isF bool) string {
 // ---------------- documents ----------------
 
 type c05DocGen struct {
-	rt    *rapid.T
-	plain bool // only plain (must-be-accepted) content
-	p5    bool // request values: a field is absent only when optional and unconstrained
+	rt       *rapid.T
+	plain    bool // only plain (must-be-accepted) content
+	p5       bool // request values: a field is absent only when optional and unconstrained
+	small    bool // no big values (inside an element pattern that is repeated thousands of times, warm-ups)
+	wideKeys bool // keys of map-typed fields from the full alphabet
+	allStr   bool // every scalar is rendered as a string (documents for WithStringValues unmarshalers)
+	big      bool // this case may still place its one big value (a long string or a long array)
 	// focus: one field of the object is hostile (boundary / ill-typed / absent ...), the rest is
 	// plain: a must-fail value is only observable as a wrong acceptance when everything else is acceptable
 	focus   bool
@@ -504,10 +578,10 @@ func (g *c05DocGen) any(depth int) c05JV {
 func (g *c05DocGen) illTyped(t *c05Typ, f *c05Fld) c05JV {
 	if (t.K == "slice" || t.K == "map") && rapid.IntRange(0, 2).Draw(g.rt, "jsoninstring") == 0 {
 		// the code parses a string as JSON text for slice and map fields
-		sp, sf := g.plain, g.focus
-		g.plain, g.focus = rapid.Bool().Draw(g.rt, "jisplain"), false
+		sp, sf, sm := g.plain, g.focus, g.small
+		g.plain, g.focus, g.small = rapid.Bool().Draw(g.rt, "jisplain"), false, true
 		v := g.plainValue(t, nil, 1)
-		g.plain, g.focus = sp, sf
+		g.plain, g.focus, g.small = sp, sf, sm
 		if rapid.IntRange(0, 5).Draw(g.rt, "jisnull") == 0 {
 			return c05Str("null")
 		}
@@ -521,6 +595,7 @@ func (g *c05DocGen) illTyped(t *c05Typ, f *c05Fld) c05JV {
 		case t.K == "bool" && v.T == "bool",
 			t.K == "string" && v.T == "str",
 			t.K == "dur" && v.T == "str",
+			t.K == "text" && v.T == "str",
 			c05IsNumeric(t.K) && v.T == "num",
 			(t.K == "struct" || t.K == "map") && v.T == "obj",
 			t.K == "slice" && v.T == "arr":
@@ -535,6 +610,19 @@ func (g *c05DocGen) illTyped(t *c05Typ, f *c05Fld) c05JV {
 }
 
 func (g *c05DocGen) wrapStr(f *c05Fld, v c05JV) c05JV {
+	if g.allStr && (v.T == "num" || v.T == "bool") {
+		if v.T == "num" && rapid.IntRange(0, 7).Draw(g.rt, "hostilestr") == 0 {
+			// what a query string or a header may carry
+			return c05Str(c05Pick(g.rt, "hostilenum", []string{"", " 5", "5 ", "+5", "0x10", "0b1", "1_000", "١٢٣", "１２", "1e3", "NaN", "Inf", "-Inf", "--1", "1,5", "1.", ".5", "00", "007", "%d", "9" + strings.Repeat("0", 400)}))
+		}
+		if v.T == "bool" {
+			if rapid.IntRange(0, 5).Draw(g.rt, "hostilebool") == 0 {
+				return c05Str(c05Pick(g.rt, "hostileboolv", []string{"TRUE", "True", "T", "1", "0", "yes", "on", "", " true", "truE", "null"}))
+			}
+			return c05Str(strconv.FormatBool(v.B))
+		}
+		return c05Str(v.S)
+	}
 	if f != nil && f.Str && (v.T == "num" || v.T == "bool") && rapid.IntRange(0, 9).Draw(g.rt, "strwrap") != 0 {
 		if v.T == "bool" {
 			return c05Str(strconv.FormatBool(v.B))
@@ -554,12 +642,35 @@ func (g *c05DocGen) plainValue(t *c05Typ, f *c05Fld, depth int) c05JV {
 		if f != nil && len(f.Opts) > 0 {
 			return c05Str(c05Pick(rt, "sopt", f.Opts))
 		}
+		if g.big && !g.small && rapid.Bool().Draw(rt, "bighere") {
+			g.big = false // one big value per case
+			n := c05BigSize(rt, c05BigLengths)
+			if rapid.IntRange(0, 9).Draw(rt, "bigstrtier") >= 5 { // long strings are cheap: the 64 KiB .. 1 MiB sizes often
+				n = c05Pick(rt, "bigstrsize", append(append([]int{}, c05BigLengths[1]...), c05BigLengths[2]...))
+			}
+			return c05JV{T: "lstr", N: n, S: c05Pick(rt, "bigpat", []string{"a", "ab%s", "x y", "0123456789"})}
+		}
 		return c05Str(g.str())
 	case "dur":
 		return c05Str(c05Pick(rt, "dur", c05Durs))
+	case "text":
+		return c05Str("t" + g.str())
 	case "struct":
 		return g.object(t.F, depth+1)
 	case "slice":
+		if g.big && !g.small && depth <= 2 && rapid.Bool().Draw(rt, "bighere") {
+			g.big = false
+			// a long array from a small description: N elements cycling through 1..3 patterns
+			sm := g.small
+			g.small = true
+			np := rapid.IntRange(1, 3).Draw(rt, "npat")
+			pats := make([]c05JV, np)
+			for i := range pats {
+				pats[i] = g.elem(t.E, depth)
+			}
+			g.small = sm
+			return c05JV{T: "rep", N: c05BigSize(rt, c05BigCounts), L: pats}
+		}
 		n := rapid.IntRange(0, 4).Draw(rt, "slen")
 		l := make([]c05JV, n)
 		for i := range l {
@@ -571,7 +682,11 @@ func (g *c05DocGen) plainValue(t *c05Typ, f *c05Fld, depth int) c05JV {
 		var m []c05KV
 		seen := map[string]bool{}
 		for i := 0; i < n; i++ {
-			k := c05Pick(rt, "mkey", c05MapKeys)
+			keys := c05MapKeys
+			if g.wideKeys {
+				keys = c05MapKeysWide
+			}
+			k := c05Pick(rt, "mkey", keys)
 			if seen[k] {
 				continue
 			}
@@ -705,6 +820,8 @@ func (g *c05DocGen) boundary(t *c05Typ, f *c05Fld) c05JV {
 			return c05Str(c05Pick(rt, "bstr", []string{op + "x", strings.ToUpper(op), strings.ToLower(op), "", " " + op, op + "|" + op}))
 		}
 		return c05Str(c05Pick(rt, "bstr2", []string{"", " ", "null", "true", "123", strings.Repeat("long", 50), "é中"}))
+	case t.K == "text":
+		return c05Str(c05Pick(rt, "btext", []string{"!refused", "!", "", " x", "ok!", "!\n"}))
 	case t.K == "dur":
 		return c05Str(c05Pick(rt, "bdur", []string{"1x", "", "1", "1h ", "h", "-", "9223372036854775807ns", "9223372036854775808ns", "1e3s", "0"}))
 	case t.K == "bool":
@@ -829,8 +946,10 @@ func (g *c05DocGen) elem(t *c05Typ, depth int) c05JV {
 }
 
 // c05Canon: keys that conf treats as the same key (and a superset of that).
+var c05CanonRepl = strings.NewReplacer("_", "", "-", "")
+
 func c05Canon(k string) string {
-	return strings.ToLower(strings.NewReplacer("_", "", "-", "").Replace(k))
+	return strings.ToLower(c05CanonRepl.Replace(k))
 }
 
 // inheritExtras: for ",inherit" children of struct-typed fields of this object,
@@ -996,7 +1115,7 @@ func (g *c05DocGen) member(f *c05Fld, i, depth int, m *[]c05KV) {
 		if f.T.K == "slice" && f.Def != nil {
 			weights[1] = 50
 		}
-		if !(c05IsNumeric(f.T.K) || f.T.K == "string" || f.T.K == "dur") {
+		if !(c05IsNumeric(f.T.K) || f.T.K == "string" || f.T.K == "dur" || f.T.K == "text") {
 			weights[0] += weights[2]
 			weights[2] = 0
 		}
@@ -1033,15 +1152,55 @@ type c05Warm struct {
 	D  c05JV    `json:"d"`
 }
 
-type c05Case struct {
-	W  []c05Warm `json:"w,omitempty"` // warm-up calls made before the judged call, in this order
-	S  []c05Fld  `json:"s"`
-	D  c05JV     `json:"d"`
-	EP string    `json:"ep,omitempty"` // entry point: "" = UnmarshalJsonBytes, "key" = UnmarshalKey(map), "reader" = UnmarshalJsonReader
-	Y  int       `json:"y,omitempty"`  // YAML style
+// c05Custom describes a caller-made mapping.NewUnmarshaler(Tag, options...) instance.
+type c05Custom struct {
+	Tag   string `json:"tag"`
+	Str   bool   `json:"str,omitempty"`   // WithStringValues()
+	Canon string `json:"canon,omitempty"` // WithCanonicalKeyFunc: "", id, lower, upper
 }
 
-var c05AllStyles = []string{"", "", "camel", "camel", "camel", "snake", "title", "kebab", "lower", "usnake"}
+func c05CanonFn(name string) func(string) string {
+	switch name {
+	case "lower":
+		return strings.ToLower
+	case "upper":
+		return strings.ToUpper
+	case "id":
+		return func(s string) string { return s }
+	}
+	return nil
+}
+
+// mapKeys applies fn to the keys of every object of the document.
+func (v c05JV) mapKeys(fn func(string) string) c05JV {
+	switch v.T {
+	case "arr":
+		l := make([]c05JV, len(v.L))
+		for i := range v.L {
+			l[i] = v.L[i].mapKeys(fn)
+		}
+		return c05JV{T: "arr", L: l}
+	case "obj":
+		m := make([]c05KV, len(v.M))
+		for i := range v.M {
+			m[i] = c05KV{K: fn(v.M[i].K), V: v.M[i].V.mapKeys(fn)}
+		}
+		return c05JV{T: "obj", M: m}
+	}
+	return v
+}
+
+type c05Case struct {
+	W  []c05Warm  `json:"w,omitempty"`  // warm-up calls made before the judged call, in this order
+	CU *c05Custom `json:"cu,omitempty"` // EP "custom": an unmarshaler built by the caller
+	S  []c05Fld   `json:"s"`
+	D  c05JV      `json:"d"`
+	EP string     `json:"ep,omitempty"` // entry point: "" = UnmarshalJsonBytes, "key" = UnmarshalKey(map), "reader", "map", "opts1/2", "faultjson/faultyaml"
+	FP int        `json:"fp,omitempty"` // fault entry points: the reader fails after FP/1000 of the document
+	Y  int        `json:"y,omitempty"`  // YAML style
+}
+
+var c05AllStyles = []string{"", "", "camel", "camel", "camel", "snake", "title", "kebab", "lower", "usnake", "odd"}
 
 func c05GenWarmups(rt *rapid.T) []c05Warm {
 	n := c05W(rt, "nwarm", []string{"0", "1", "2"}, []int{40, 35, 25})
@@ -1054,7 +1213,7 @@ func c05GenWarmups(rt *rapid.T) []c05Warm {
 		}
 		cfg := &c05GenCfg{tag: tag, keyStyles: c05AllStyles, maxDepth: 2}
 		w.S = c05GenFields(rt, cfg, 1, 3, "")
-		g := &c05DocGen{rt: rt, plain: rapid.IntRange(0, 3).Draw(rt, "warmplain") != 0, hostile: 6}
+		g := &c05DocGen{rt: rt, plain: rapid.IntRange(0, 3).Draw(rt, "warmplain") != 0, hostile: 6, small: true}
 		w.D = g.object(w.S, 1)
 		ws = append(ws, w)
 	}
@@ -1062,26 +1221,51 @@ func c05GenWarmups(rt *rapid.T) []c05Warm {
 }
 
 func c05GenCase(rt *rapid.T) c05Case {
-	ep := c05W(rt, "ep", []string{"", "key", "reader"}, []int{70, 20, 10})
+	ep := c05W(rt, "ep", []string{"", "key", "reader", "map", "opts1", "opts2", "faultjson", "faultyaml", "native", "custom"}, []int{38, 10, 6, 7, 3, 3, 3, 2, 14, 14})
 	tag := "json"
-	if ep == "key" {
+	if ep == "key" || ep == "native" {
 		tag = "key"
 	}
-	cfg := &c05GenCfg{tag: tag, keyStyles: c05AllStyles, maxDepth: 3}
 	c := c05Case{EP: ep}
-	c.S = c05GenFields(rt, cfg, 1, 6, "")
+	if ep == "custom" {
+		c.CU = &c05Custom{Tag: c05Pick(rt, "cutag", []string{"json", "key", "form", "cfg", "x-y"}),
+			Str: rapid.IntRange(0, 9).Draw(rt, "custr") < 5, Canon: c05Pick(rt, "cucanon", []string{"", "", "id", "lower", "upper"})}
+		tag = c.CU.Tag
+	}
+	cfg := &c05GenCfg{tag: tag, keyStyles: c05AllStyles, maxDepth: 3}
+	if c.CU != nil && c.CU.Str {
+		// string-valued sources carry scalars: flat shapes of scalars and pointers to scalars
+		n := rapid.IntRange(1, 6).Draw(rt, "nfields")
+		for i := 0; i < n; i++ {
+			f := c05Fld{Tag: tag, KS: c05Pick(rt, "keystyle", cfg.keyStyles), T: c05Typ{K: c05GenScalarKind(rt, true), P: rapid.IntRange(0, 7).Draw(rt, "cuptr") == 0}}
+			for j := rapid.IntRange(1, 2).Draw(rt, "nwords"); j > 0; j-- {
+				f.W = append(f.W, c05Pick(rt, "word", c05Words))
+			}
+			c05GenOptionsBase(rt, &f)
+			c.S = append(c.S, f)
+		}
+	} else {
+		c.S = c05GenFields(rt, cfg, 1, 6, "")
+	}
 	mode := c05W(rt, "docmode", []string{"mixed", "plain", "hostile", "focus"}, []int{25, 20, 10, 45})
-	g := &c05DocGen{rt: rt, plain: mode == "plain", hostile: 6, focus: mode == "focus"}
+	g := &c05DocGen{rt: rt, plain: mode == "plain", hostile: 6, focus: mode == "focus", big: !strings.HasPrefix(ep, "fault") && c05Rare(rt, "bigcase", 100), wideKeys: true, allStr: c.CU != nil && c.CU.Str}
 	if mode == "hostile" {
 		g.hostile = 30
 	}
 	c.D = g.object(c.S, 1)
 	c.Y = rapid.IntRange(0, 1).Draw(rt, "yamlstyle")
 	c.W = c05GenWarmups(rt)
+	if strings.HasPrefix(ep, "fault") || ep == "native" {
+		c.FP = rapid.IntRange(0, 999).Draw(rt, "faultpos")
+	}
 	return c
 }
 
 func c05Describe(c *c05Case) string {
 	defer func() { _ = recover() }()
-	return fmt.Sprintf("type %v doc %s", c05StructType(c.S), c.D.JSON())
+	doc := c.D.JSON()
+	if len(doc) > 3000 {
+		doc = fmt.Sprintf("%s ... (%d bytes) ... %s", doc[:1500], len(doc), doc[len(doc)-300:])
+	}
+	return fmt.Sprintf("type %v doc %s", c05StructType(c.S), doc)
 }
